@@ -8,7 +8,9 @@
 
 use crate::engine::{self, Engine, Fail, JobCtx, LocalStats, Obs};
 use crate::fuzzdec;
-use crate::props::{self, c01, c02, c03, c04, c05, c06, c07, c08, c09, c10, c11, c12, c13, c14, c15, c16, c17, c18};
+use crate::props::{self, c01, c02, c03, c04, c05, c06, c08, c09, c10, c12, c13, c14, c15, c16, c18};
+#[cfg(fast_qr_verif)]
+use crate::props::{c07, c11, c17};
 use serde_json::{json, Value};
 use std::cell::RefCell;
 use std::sync::Mutex;
@@ -39,6 +41,7 @@ pub fn eval(prop: &str, data: &[u8], obs: &mut Obs) -> Option<(Value, Result<(),
                 "C06" => (j, c06::check(&bc, fam, obs)),
                 "C08" => (j, c08::check(&bc, fam, obs)),
                 "C10" => (j, c10::check(&bc, fam, obs)),
+                #[cfg(fast_qr_verif)]
                 "C11" => (j, c11::check(&bc, fam, obs)),
                 "C15" => {
                     let small = bc.opts.version.map(|v| v <= 6).unwrap_or(bc.input.len() < 40);
@@ -70,10 +73,12 @@ pub fn eval(prop: &str, data: &[u8], obs: &mut Obs) -> Option<(Value, Result<(),
             let c = fuzzdec::frame_case(data);
             (c18::to_json(&c), c18::check(&c, obs).map(|_| ()))
         }
+        #[cfg(fast_qr_verif)]
         "C17" => {
             let c = fuzzdec::wasm_case(data);
             (c17::to_json(&c), c17::check(&c, obs))
         }
+        #[cfg(fast_qr_verif)]
         "C07" => {
             let c = fuzzdec::division_case(data);
             let r = c07::check_generator(c.version, c.level).and_then(|_| c07::check(&c, obs));
